@@ -762,6 +762,12 @@ def plan(tier, seed):
     """(kind, n, c, t, inst-scheme, time-scheme, name-scheme, value-scheme, opt)"""
     rnd = random.Random(1000 + seed)
     out = []
+    # the combinations that matter most are always present, whatever the phase of the rotation
+    for kind in ("NS", "NA", "MI", "L"):
+        for ils in ("shuffled", "strings", "descending"):
+            out.append((kind, 3, 2, 3, ils, "range", "unsorted", "random", 2))
+        for tls in ("descending", "rotated", "arbitrary", "dates-reversed"):
+            out.append((kind, 2, 2, 4, "range", tls, "ints", "random", 1))
     if tier == "quick":
         shapes = [(n, c, t) for n in (1, 2, 3) for c in (1, 2, 3) for t in (2, 3, 4)]
         fixed, rotating, nrot = ["NS", "MI"], ["NA", "A3", "L", "NS", "L"], 1
@@ -769,29 +775,25 @@ def plan(tier, seed):
         vals = ["random", "ints", "dups"]
     else:
         shapes = [(n, c, t) for n in (1, 2, 3, 4) for c in (1, 2, 3, 4) for t in (2, 3, 4, 5)]
-        fixed, rotating, nrot = ["NS", "NS", "MI", "L", "NA"], ["A3", "NS", "MI", "L", "NA", "T2D", "MI", "NS", "T2A"], 2
+        fixed, rotating, nrot = ["NS", "NS", "MI", "L", "NA"], ["A3", "NS", "MI", "L", "NA", "T2D", "MI", "NS", "T2A", "L", "NS"], 5
         extra = [("NS", 6, 5, 7), ("NA", 5, 2, 9), ("MI", 7, 2, 6), ("L", 5, 5, 5), ("A3", 8, 3, 12)]
         vals = list(VAL_SCHEMES)
-    counter = 0
+    bags = {}
+
+    def draw(kind, dim, pool):
+        # balanced pseudo-random choice: every scheme of a dimension is used once per root kind before any is used again
+        bag = bags.setdefault((kind, dim), [])
+        if not bag:
+            bag.extend(pool)
+            rnd.shuffle(bag)
+        return bag.pop()
     for q, (n, c, t) in enumerate(shapes):
         kinds = fixed + [rotating[(q * nrot + r + seed) % len(rotating)] for r in range(nrot)]
-        for r, kind in enumerate(kinds):
-            counter += 1
-            # rotate through all schemes so that each one meets each shape / root kind often; the seed shifts the phase
-            ils = IL_SCHEMES[(counter + seed) % len(IL_SCHEMES)]
-            tls = TL_SCHEMES[(counter * 3 + seed + q) % len(TL_SCHEMES)]
-            nms = NM_SCHEMES[(counter * 5 + seed + q // 3) % len(NM_SCHEMES)]
-            vs = vals[(counter + q) % len(vals)]
-            out.append((kind, n, c, t, ils, tls, nms, vs, rnd.randrange(4)))
+        for kind in kinds:
+            out.append((kind, n, c, t, draw(kind, "il", IL_SCHEMES), draw(kind, "tl", TL_SCHEMES), draw(kind, "nm", NM_SCHEMES), draw(kind, "v", vals), rnd.randrange(4)))
     for (kind, n, c, t) in extra:
         for r in range(2):
             out.append((kind, n, c, t, IL_SCHEMES[(3 + r + seed) % len(IL_SCHEMES)], TL_SCHEMES[(3 + 2 * r + seed) % len(TL_SCHEMES)], NM_SCHEMES[(1 + r + seed) % len(NM_SCHEMES)], vals[r % len(vals)], r))
-    # the combinations that matter most are always present, whatever the phase of the rotation
-    for kind in ("NS", "NA", "MI", "L"):
-        for ils in ("shuffled", "strings", "descending"):
-            out.append((kind, 3, 2, 3, ils, "range", "unsorted", "random", 2))
-        for tls in ("descending", "rotated", "arbitrary", "dates-reversed"):
-            out.append((kind, 2, 2, 4, "range", tls, "ints", "random", 1))
     return out
 
 
